@@ -17,6 +17,7 @@ package main
 import (
 	"fmt"
 	"os"
+	"sync/atomic"
 	"reflect"
 	"sort"
 	"strconv"
@@ -179,6 +180,7 @@ func runGraph(sc *gScen) *gRun {
 		loaders = append(loaders, failLoader{})
 	}
 	var runErr error
+	atomic.StoreInt64(&scanCalls, 0)
 	done := make(chan any, 1)
 	go func() {
 		done <- hx.Guard(func() {
@@ -194,7 +196,7 @@ func runGraph(sc *gScen) *gRun {
 			res.errText = fmt.Sprint(pan)
 		case runErr != nil:
 			res.errText = runErr.Error()
-			res.status = "err." + stageOf(res.errText)
+			res.status = "err"
 		default:
 			res.status = "ok"
 		}
@@ -205,6 +207,9 @@ func runGraph(sc *gScen) *gRun {
 	env.mu.Lock()
 	res.events = append([]string{}, env.events...)
 	env.mu.Unlock()
+	if res.status == "err" {
+		res.status = "err." + res.stageOfFailure(tr, names)
+	}
 	res.created = tr.created
 	// rows with reflection facts
 	tyIds := map[reflect.Type]int{}
@@ -359,6 +364,35 @@ func builtinNames() []string {
 	builtinCache = sr.GetSingletonNames()
 	sort.Strings(builtinCache)
 	return builtinCache
+}
+
+// stageOfFailure derives the failing stage from what the run DID (not from error text, which may be reworded):
+// a failing runner was invoked → runners; the definition scan never started → config; the injected scan fault → factory;
+// otherwise the outermost creation that failed belongs to the boot phase (a user post-processor) → factory, else → refresh.
+func (r *gRun) stageOfFailure(tr *traceSCR, names []string) string {
+	for _, e := range r.events {
+		if e[0] == 'r' {
+			if ri, err := strconv.Atoi(e[1:]); err == nil && ri < len(r.sc.nodes) && r.sc.nodes[ri].flt&fltRun != 0 {
+				return "runners"
+			}
+		}
+	}
+	if atomic.LoadInt64(&scanCalls) == 0 {
+		return "config"
+	}
+	if tr.failedTop == "" {
+		if r.sc.scanFail {
+			return "factory"
+		}
+		return stageOf(r.errText) // nothing structural to go by: fall back to the message prefix
+	}
+	for i, n := range r.nodesObj {
+		if utInfos[r.sc.nodes[i].ty].pp && names[i] == tr.failedTop {
+			_ = n
+			return "factory"
+		}
+	}
+	return "refresh"
 }
 
 func stageOf(msg string) string {
